@@ -39,6 +39,8 @@ import (
 	pb "github.com/libp2p/go-libp2p-kad-dht/pb"
 )
 
+type vC11CallKey struct{}
+
 // vC11Beh is the remote's reaction to one request it read (that expects a reply).
 type vC11Beh struct {
 	Kind  string        // prompt delay silent reset close garbage-proto garbage-len partial-silent partial-close
@@ -99,6 +101,7 @@ type vC11Stream struct {
 	inEnd       int64 // bytes the remote wrote
 	consumed    int64 // bytes the client read
 	killed      bool
+	opener      string // id of the call whose context NewStream was given
 	readsByRemote int // reply-expecting requests read by the remote
 }
 
@@ -113,6 +116,7 @@ type vC11Peer struct {
 	nReq        int
 	disconnects int
 	maxOpen     int
+	orphaned    bool
 }
 
 type vC11Call struct {
@@ -153,22 +157,24 @@ type vC11Harness struct {
 
 // orphanSig recognises the known defect "sender orphaned by its cancelled creator" behind a
 // second open stream (signature only; the verdict does not depend on it): some call to the
-// peer ended with a context error without transmitting anything, and overlapped the call that
-// opened (first wrote on) a stream that is still open. hs.mu held.
+// peer ended with a context error without transmitting anything, started before a still-open
+// stream was opened and returned after the call that opened it had started. hs.mu held.
 func (hs *vC11Harness) orphanSig(p *vC11Peer) string {
+	if p.orphaned {
+		return "orphaned-sender" // two sender generations coexist from the first orphaning on: consequences
+	}
 	for _, o := range p.streams {
 		if o.clientReset != 0 {
 			continue
 		}
 		openerStart := o.openSeq
-		if len(o.writes) > 0 {
-			if oc := hs.calls[o.writes[0].id]; oc != nil {
-				openerStart = oc.startSeq
-			}
+		if oc := hs.calls[o.opener]; oc != nil {
+			openerStart = oc.startSeq
 		}
 		for _, x := range hs.calls {
 			if x.p == p && x.retSeq != 0 && len(hs.byID[x.id]) == 0 && x.retSeq > openerStart && x.startSeq < o.openSeq &&
 				(errors.Is(x.err, context.Canceled) || errors.Is(x.err, context.DeadlineExceeded)) {
+				p.orphaned = true
 				return "orphaned-sender"
 			}
 		}
@@ -179,11 +185,20 @@ func (hs *vC11Harness) orphanSig(p *vC11Peer) string {
 // check evaluates a stream-discipline clause; in forced schedules the violation carries the
 // schedule's signature so that a known finding can be told apart from a new one.
 func (hs *vC11Harness) check(ok bool, clause, format string, args ...any) bool {
+	return hs.checkP(ok, clause, nil, format, args...)
+}
+
+// checkP is check for violations that may be the footprint of an orphaned sender of peer p.
+func (hs *vC11Harness) checkP(ok bool, clause string, p *vC11Peer, format string, args ...any) bool {
 	hs.c.Clause(clause)
 	if !ok {
 		sig := clause
 		if hs.sig != "" {
 			sig = hs.sig
+		} else if p != nil {
+			if o := hs.orphanSig(p); o != "" {
+				sig = o
+			}
 		}
 		hs.c.FailSig(clause, sig, format, args...)
 	}
@@ -257,7 +272,7 @@ func (s *vC11Stream) Write(b []byte) (int, error) {
 				hs.check(false, "exchanges-serialized", "request %s written on %s while the exchange of %s (#%d, call still in flight) is outstanding on the same stream", id, s.name(), ow.id, ow.seq)
 				kill = true
 			case s.p.disconnects == 0:
-				hs.check(false, "exchanges-serialized", "request %s written on %s while the exchange of %s (#%d) is outstanding on %s of the same peer (no OnDisconnect so far)", id, s.name(), ow.id, ow.seq, o.name())
+				hs.checkP(false, "exchanges-serialized", s.p, "request %s written on %s while the exchange of %s (#%d) is outstanding on %s of the same peer (no OnDisconnect so far)", id, s.name(), ow.id, ow.seq, o.name())
 			}
 		}
 	}
@@ -390,6 +405,7 @@ func (hs *vC11Harness) newStream(ctx context.Context, p peer.ID, protos []protoc
 	}
 	local, remote := hs.h.NewOutboundStream(p, protos[0])
 	st := &vC11Stream{Stream: local, hs: hs, p: vp, end: remote}
+	st.opener, _ = ctx.Value(vC11CallKey{}).(string)
 	hs.mu.Lock()
 	hs.seq++
 	st.openSeq = hs.seq
@@ -404,11 +420,7 @@ func (hs *vC11Harness) newStream(ctx context.Context, p peer.ID, protos []protoc
 	}
 	// every stream of an earlier sender generation may still be open; within one generation a
 	// new stream is opened only after the previous one was reset or closed
-	if open > vp.disconnects && hs.sig == "" {
-		hs.sig = hs.orphanSig(vp)
-		defer func() { hs.sig = "" }()
-	}
-	hs.check(open <= vp.disconnects, "one-open-stream", "NewStream(%s) while %d outbound stream(s) to it are still open (%v) and only %d OnDisconnect call(s) were made", vp.name, open, names, vp.disconnects)
+	hs.checkP(open <= vp.disconnects, "one-open-stream", vp, "NewStream(%s) while %d outbound stream(s) to it are still open (%v) and only %d OnDisconnect call(s) were made", vp.name, open, names, vp.disconnects)
 	if open+1 > vp.maxOpen {
 		vp.maxOpen = open + 1
 	}
@@ -585,6 +597,7 @@ type vC11Scenario struct {
 	SScripts [][]string
 	Discs    []time.Duration // OnDisconnect instants (peer chosen round-robin)
 	Forced   *vC11Forced
+	Burst    bool // all callers start at once on fresh senders, 30% pre-cancelled contexts, no think time
 }
 
 // vC11Forced is a forced interleaving: caller A's context ends exactly when it first waits on
@@ -698,6 +711,10 @@ func vC11GenScenario(c *vh.Case, bubble bool, T time.Duration) vC11Scenario {
 	for i := r.Intn(4); i > 0 && r.Intn(2) == 0; i-- {
 		sc.Discs = append(sc.Discs, time.Duration(r.Intn(400))*unit/10)
 	}
+	if r.Intn(6) == 0 {
+		sc.Burst = true
+		sc.Callers = 4 + r.Intn(5)
+	}
 	return sc
 }
 
@@ -754,6 +771,12 @@ func vC11Run(c *vh.Case, sc vC11Scenario, bubble bool) {
 				pl.ctxKind = "cancel-at"
 				pl.d = []time.Duration{0, T / 3, T, T + time.Millisecond, 2*T + time.Millisecond, time.Duration(r.Intn(250)) * unit / 10}[r.Intn(6)]
 			}
+			if sc.Burst {
+				pl.think = 0
+				if r.Intn(10) < 3 {
+					pl.ctxKind = "precancelled"
+				}
+			}
 			plans[ci] = append(plans[ci], pl)
 		}
 	}
@@ -773,7 +796,7 @@ func vC11Run(c *vh.Case, sc vC11Scenario, bubble bool) {
 				hs.sleep(pl.think)
 				id := fmt.Sprintf("c%d-%d", ci, j)
 				vp := hs.order[pl.peer]
-				ctx, cancel := context.WithCancel(context.Background())
+				ctx, cancel := context.WithCancel(context.WithValue(context.Background(), vC11CallKey{}, id))
 				cl := &vC11Call{id: id, caller: ci, p: vp, message: pl.message, cancel: cancel}
 				var tm *time.Timer
 				switch pl.ctxKind {
@@ -856,7 +879,7 @@ func vC11Run(c *vh.Case, sc vC11Scenario, bubble bool) {
 					names = append(names, s.name())
 				}
 			}
-			hs.check(open <= 1, "one-open-stream", "at rest %d outbound streams to %s are open (%v) after %d OnDisconnect call(s)", open, p.name, names, p.disconnects)
+			hs.checkP(open <= 1, "one-open-stream", p, "at rest %d outbound streams to %s are open (%v) after %d OnDisconnect call(s)", open, p.name, names, p.disconnects)
 		}
 	} else {
 		c.Obs("rest_not_reached", 1)
@@ -902,6 +925,7 @@ func vC11Run(c *vh.Case, sc vC11Scenario, bubble bool) {
 	c.Set("peers", sc.Peers)
 	c.Set("calls_per_caller", sc.PerCall)
 	c.Set("ondisconnect_timers", len(sc.Discs))
+	c.Set("burst", sc.Burst)
 	c.Set("streams", nStreams)
 	c.Set("ok_failed", []int{nOK, nErr})
 	for _, l := range trace {
@@ -936,6 +960,7 @@ func vC11Run(c *vh.Case, sc vC11Scenario, bubble bool) {
 
 // call performs one SendRequest / SendMessage and judges its return.
 func (hs *vC11Harness) call(ctx context.Context, id string, vp *vC11Peer, message bool, note string) {
+	ctx = context.WithValue(ctx, vC11CallKey{}, id)
 	cl := &vC11Call{id: id, p: vp, message: message, cancel: func() {}}
 	hs.mu.Lock()
 	hs.seq++
@@ -1071,7 +1096,7 @@ var vC11Clauses = []string{"own-reply", "reply-from-carrying-transmission", "exc
 
 func TestVerif_C11_bubble(t *testing.T) {
 	vh.Run(t, vh.Spec{Prop: "C11", Unit: "bubble", Quick: 3000, Thorough: 150000, CostMs: 4, WallS: 60,
-		Rule: "virtual time, real 10 s read timeout: 1-8 callers x 1-3 peers x 1-5 calls each (SendRequest of 5 types, 20% SendMessage/ADD_PROVIDER), think times 0-3 s; per-peer remote script over the requests it reads (fault share 0/20/50%): prompt, delayed 1-9 s, delayed 10 s +/- 1 ms (boundary), delayed 11-25 s, silent, reset after reading, close, non-protobuf frame, over-long length prefix, truncated frame (+ silence or EOF); per-stream script: refused, slowly refused, slow, reset on open; contexts: none / pre-cancelled / deadline in {1 ms, 5 s, 10 s -/+ 1 ms, 15 s, 20 s} / cancelled at {0, 3.3 s, 10 s, 10 s + 1 ms, 20 s + 1 ms, PRNG}; boundary hooks cancel the caller or call OnDisconnect when the remote has read the request / written the reply; OnDisconnect timers; oracle on ids + frame serials + logging stream; non-trivial = >= 2 callers, >= 1 successful request and (>= 1 stream reset by the sender or >= 1 OnDisconnect); distinct by (per-call transmissions and outcome, per-stream writes/frames)",
+		Rule: "virtual time, real 10 s read timeout: 1-8 callers x 1-3 peers x 1-5 calls each (SendRequest of 5 types, 20% SendMessage/ADD_PROVIDER), think times 0-3 s; per-peer remote script over the requests it reads (fault share 0/20/50%): prompt, delayed 1-9 s, delayed 10 s +/- 1 ms (boundary), delayed 11-25 s, silent, reset after reading, close, non-protobuf frame, over-long length prefix, truncated frame (+ silence or EOF); per-stream script: refused, slowly refused, slow, reset on open; contexts: none / pre-cancelled / deadline in {1 ms, 5 s, 10 s -/+ 1 ms, 15 s, 20 s} / cancelled at {0, 3.3 s, 10 s, 10 s + 1 ms, 20 s + 1 ms, PRNG}; boundary hooks cancel the caller or call OnDisconnect when the remote has read the request / written the reply; OnDisconnect timers; 1 case in 6 is a burst (4-8 callers start at once without think time, 30% pre-cancelled contexts); oracle on ids + frame serials + logging stream; non-trivial = >= 2 callers, >= 1 successful request and (>= 1 stream reset by the sender or >= 1 OnDisconnect); distinct by (per-call transmissions and outcome, per-stream writes/frames)",
 		Clauses: append([]string{"late-reply-not-returned"}, vC11Clauses...)},
 		func(c *vh.Case) {
 			sc := vC11GenScenario(c, true, 10*time.Second)
